@@ -36,9 +36,6 @@ def joinOps : State → Nat → List Nat → List String → List String → Opt
       joinOps s' (budget - o.pulled) rdy ts (obsStr o s'.active.length :: acc)
     | _ => none
 
-def depReady (n d : Nat) (started : List Nat) (k : Nat) : Bool :=
-  (List.range d).all fun j => k + 1 + j ≥ n || started.contains (k + 1 + j)
-
 def depRun (n d : Nat) : Nat → State → List String → List String
   | 0, _, acc => acc.reverse
   | polls + 1, s, acc =>
